@@ -2,6 +2,7 @@ package main
 
 import (
 	"go/ast"
+	"sort"
 	"strings"
 )
 
@@ -105,4 +106,116 @@ func extractC07() {
 		})
 	}
 	g.def("serveSkeleton", "List String", leanList(serve))
+	extractC07Round3(f, g)
+}
+
+// lastSel is the method name of a call (`conn.SetDeadline` -> `SetDeadline`, `close` -> `close`): facts
+// that use it survive a renamed receiver or variable.
+func lastSel(e ast.Expr) string {
+	switch x := e.(type) {
+	case *ast.SelectorExpr:
+		return x.Sel.Name
+	case *ast.Ident:
+		return x.Name
+	}
+	return ""
+}
+
+// isClosingField: the expression is the proxy's closing channel (`<recv>.closing`).
+func isClosingField(e ast.Expr) bool {
+	se, ok := e.(*ast.SelectorExpr)
+	return ok && se.Sel.Name == "closing"
+}
+
+// Round 3: what the extended shutdown model (tunnels, MITM, hijack, write failures) relies on.
+func extractC07Round3(f *ast.File, g *gen) {
+	// (1) the kinds of deadline the proxy puts on a connection anywhere in proxy.go (set of method names; not
+	// tied to a function, so an extracted helper changes nothing). The model has no step by which the PROXY
+	// abandons a response write: the only deadline is the idle one (read+write, `SetDeadline`).
+	dl := map[string]bool{}
+	// (2) how often the shutdown signal is consulted or handed on, by kind (sorted multiset; not tied to a
+	// function): close (close(x.closing)), recv (<-x.closing), arg:<callee> (x.closing passed to a call),
+	// Closing (x.Closing()). A new consultation anywhere (or a dropped one) changes it.
+	var uses []string
+	for _, d := range f.Decls {
+		fd, ok := d.(*ast.FuncDecl)
+		if !ok || fd.Body == nil {
+			continue
+		}
+		ast.Inspect(fd.Body, func(n ast.Node) bool {
+			switch x := n.(type) {
+			case *ast.CallExpr:
+				m := lastSel(x.Fun)
+				switch m {
+				case "SetDeadline", "SetReadDeadline", "SetWriteDeadline":
+					dl[m] = true
+				case "Closing":
+					uses = append(uses, "Closing")
+				case "close":
+					if len(x.Args) == 1 && isClosingField(x.Args[0]) {
+						uses = append(uses, "close")
+					}
+				default:
+					for _, a := range x.Args {
+						if isClosingField(a) {
+							uses = append(uses, "arg:"+m)
+						}
+					}
+				}
+			case *ast.UnaryExpr:
+				if x.Op.String() == "<-" && isClosingField(x.X) {
+					uses = append(uses, "recv")
+				}
+			}
+			return true
+		})
+	}
+	var deadlines []string
+	for m := range dl {
+		deadlines = append(deadlines, m)
+	}
+	sort.Strings(deadlines)
+	sort.Strings(uses)
+	g.def("deadlineKinds", "List String", leanList(deadlines))
+	g.def("closingUses", "List String", leanList(uses))
+
+	// (3) the order of the shutdown-relevant calls of `handle` (method names, source order): the request
+	// modifier, the hijack check, the round trip, the response modifier, the hijack check, the close
+	// decision, the response write — and nothing that touches a deadline in between.
+	relevant := map[string]bool{"readRequest": true, "handleConnectRequest": true, "ModifyRequest": true, "Hijacked": true,
+		"roundTrip": true, "ModifyResponse": true, "Closing": true, "Write": true, "Flush": true,
+		"SetDeadline": true, "SetReadDeadline": true, "SetWriteDeadline": true, "Close": false}
+	order := func(fn string) []string {
+		var out []string
+		if fd := funcDecl(f, "Proxy", fn); fd != nil {
+			ast.Inspect(fd.Body, func(n ast.Node) bool {
+				if _, ok := n.(*ast.FuncLit); ok {
+					return false // the pumps' closures are not part of the straight-line order
+				}
+				if c, ok := n.(*ast.CallExpr); ok {
+					if m := lastSel(c.Fun); relevant[m] {
+						out = append(out, m)
+					}
+				}
+				return true
+			})
+		}
+		return out
+	}
+	g.def("handleOrder", "List String", leanList(order("handle")))
+
+	// (4) handleLoop: after `handle` returns it leaves on a closeable error or on a hijacked session.
+	var loop []string
+	if fd := funcDecl(f, "Proxy", "handleLoop"); fd != nil {
+		ast.Inspect(fd.Body, func(n ast.Node) bool {
+			if c, ok := n.(*ast.CallExpr); ok {
+				switch m := lastSel(c.Fun); m {
+				case "handle", "isCloseable", "Hijacked":
+					loop = append(loop, m)
+				}
+			}
+			return true
+		})
+	}
+	g.def("handleLoopBody", "List String", leanList(loop))
 }
